@@ -8,6 +8,7 @@ export VERIF_REPO=$WT VERIF_EVIDENCE_DIR=/tmp/seedev.$$ VERIF_REPLAY_DIR=/tmp/se
 trap 'git -C /repo worktree remove --force $WT; rm -rf /tmp/seedev.$$ /tmp/seedreplay.$$' EXIT
 for d in "$@"; do
   d=$(realpath $d); id=$(basename $d)
+  if [ -f $d/detected.json ] && [ -z "$FORCE" ]; then echo "$id: already evaluated"; continue; fi
   prop=$(python3 -c "import json; print(json.load(open('$d/meta.json'))['property'])")
   files=$(grep '^+++ b/' $d/patch.diff | sed 's|+++ b/||')
   rel="$prop"
@@ -23,7 +24,11 @@ for d in "$@"; do
   rel=$(for p in $rel; do echo $p; done | awk '!s[$0]++' | grep -F -x -f <(for p in $claimed; do echo $p; done))
   git -C $WT apply $d/patch.diff || { echo "$id: patch does not apply"; continue; }
   det=""; inc=""; ok=""
+  n=0
   for p in $rel; do
+    # the property's own check always runs; once a VIOLATION is on record at most two more related checks are run
+    if [ -n "$det" ] && [ $n -ge 3 ]; then break; fi
+    n=$((n+1))
     out=$(timeout 1200 ./check $p quick 2>&1); rc=$?
     if echo "$out" | grep -q '^VIOLATION'; then det="$det $p"; elif [ $rc = 2 ]; then inc="$inc $p"; else ok="$ok $p"; fi
   done
